@@ -32,6 +32,76 @@ def history(chk, rows):
     return hist, index
 
 
+def _validate_chunk(args):
+    """one chunk of whole per-script histories; returns (tlc results, [(row, event, why)])"""
+    import re
+    wd, tag, hist, index = args
+    hpath = os.path.join(wd, "hist_%s.ndjson" % tag)
+    results, bad = [], []
+    while hist:
+        if len(results) > 400:
+            raise lib.ToolError("more than 400 rejected scripts in one chunk; giving up")
+        lib.write_ndjson(hpath, hist)
+        res = lib.tlc("Trace_RegAlloc", env={"HIST": hpath}, workers=1, timeout=1200, name="trace_regalloc_" + tag)
+        results.append(res)
+        bad_line = None
+        if res.violation:
+            # an invariant of RegAlloc failed in the state reached by the last consumed event
+            m = None
+            for m in re.finditer(r"^/\\ l = (\d+)", res.out, re.M):
+                pass
+            bad_line = int(m.group(1)) - 1 if m else None
+            why = "RegAlloc invariant violated"
+        else:
+            m = re.search(r'<<"REACHED", (\d+), (\d+)>>', res.out)
+            if not m:
+                raise lib.ToolError("no REACHED line from Trace_RegAlloc\n" + res.out[-2000:])
+            reached, total = int(m.group(1)), int(m.group(2))
+            if reached == total:
+                break
+            bad_line = reached
+            why = "event is not an enabled transition of RegAlloc"
+        if bad_line is None:
+            raise lib.ToolError("cannot locate the failing event\n" + res.out[-2000:])
+        start, row = [x for x in index if x[0] <= bad_line][-1]
+        bad.append((row, hist[bad_line - 1], why))
+        # continue with the scripts after this one
+        nxt = [x[0] for x in index if x[0] > start]
+        end = (nxt[0] - 1) if nxt else len(hist)
+        hist = hist[end:]
+        index = [(s0 - end, r) for (s0, r) in index if s0 > start]
+    return results, bad
+
+
+def validate_history(chk, wd, hist, index, describe, chunks=8):
+    """Trace_RegAlloc on a concatenation of per-script histories.  A rejected history stops at the first
+    unexplained event: that script is reported, then the scripts after it are validated (the ones before it were
+    accepted), until the whole history has been judged.  The history is cut at script boundaries into chunks that
+    are validated by parallel single-worker TLC processes.  Returns the number of TLC runs."""
+    from concurrent.futures import ThreadPoolExecutor
+    if not index:
+        return 0
+    per = max(1, (len(index) + chunks - 1) // chunks)
+    jobs = []
+    for c in range(0, len(index), per):
+        part = index[c:c + per]
+        lo = part[0][0]
+        hi = index[c + per][0] - 1 if c + per < len(index) else len(hist)
+        jobs.append((wd, "c%d" % (c // per), hist[lo - 1:hi], [(s0 - lo + 1, r) for (s0, r) in part]))
+    with ThreadPoolExecutor(max_workers=chunks) as ex:
+        outs = list(ex.map(_validate_chunk, jobs))
+    rounds = 0
+    for results, bad in outs:
+        rounds += len(results)
+        for res in results:
+            chk.tlc_stats(res)
+        for row, ev, why in bad:
+            key, what, case = describe(row, ev, why)
+            chk.report(key, what, case)
+            chk.add("scripts_rejected")
+    return rounds
+
+
 def run(chk, replay=None):
     quick = chk.tier == "quick"
     r0 = lib.tlc("MC_RegAlloc", workers=4, timeout=900)
@@ -64,42 +134,8 @@ def run(chk, replay=None):
             continue
         rows.append(o)
     hist, index = history(chk, rows)
-    hpath = os.path.join(wd, "hist.ndjson")
-    # a rejected history stops at the first unexplained event: report that script, then validate the scripts
-    # after it (the ones before it were accepted), until the whole history has been judged
-    full_len = len(hist)
-    n_alloc = sum(1 for e in hist if e["ev"] == "alloc")
-    n_complex = sum(1 for e in hist if e["ev"] == "too_complex")
-    n_anti = sum(1 for e in hist if e["ev"] == "anti_scratch_error")
-    rounds = 0
-    while hist:
-        rounds += 1
-        if rounds > 400:
-            raise lib.ToolError("more than 400 rejected scripts; giving up")
-        lib.write_ndjson(hpath, hist)
-        res = lib.tlc("Trace_RegAlloc", env={"HIST": hpath}, workers=1, timeout=1200)
-        chk.tlc_stats(res)
-        bad_line = None
-        if res.violation:
-            # an invariant of RegAlloc failed in the state reached by the last consumed event
-            m = None
-            for m in __import__("re").finditer(r"^/\\ l = (\d+)", res.out, __import__("re").M):
-                pass
-            bad_line = int(m.group(1)) - 1 if m else None
-            why = "RegAlloc invariant violated"
-        else:
-            m = __import__("re").search(r'<<"REACHED", (\d+), (\d+)>>', res.out)
-            if not m:
-                raise lib.ToolError("no REACHED line from Trace_RegAlloc\n" + res.out[-2000:])
-            reached, total = int(m.group(1)), int(m.group(2))
-            if reached == total:
-                break
-            bad_line = reached
-            why = "event is not an enabled transition of RegAlloc"
-        if bad_line is None:
-            raise lib.ToolError("cannot locate the failing event\n" + res.out[-2000:])
-        start, row = [x for x in index if x[0] <= bad_line][-1]
-        ev = hist[bad_line - 1]
+
+    def describe(row, ev, why):
         kind = ev.get("ev")
         # key: the event kind + in which position kinds the generator mentioned the offending register
         mk = byid[row["id"]].get("mention_kinds", {}).get("r%s" % ev.get("reg"))
@@ -107,15 +143,29 @@ def run(chk, replay=None):
             key = "%s:mentioned-as:%s" % (kind, "+".join(sorted(set(mk))))
         else:
             key = "%s:%s" % (kind, "+".join(sorted(set(mention_kinds_of(byid[row["id"]])))) or "-")
-        chk.report(key, "%s: %s in\n%s" % (why, json.dumps(ev), row["text"]),
-                   {"program": byid[row["id"]], "event": ev, "events": row["events"], "mentioned": row["mentioned"],
-                    "scratch_int": row["scratch_int"], "scratch_float": row["scratch_float"]})
-        chk.add("scripts_rejected")
-        # continue with the scripts after this one
-        nxt = [x[0] for x in index if x[0] > start]
-        end = (nxt[0] - 1) if nxt else len(hist)
-        hist = hist[end:]
-        index = [(s0 - end, r) for (s0, r) in index if s0 > start]
+        return key, "%s: %s in\n%s" % (why, json.dumps(ev), row["text"]), {
+            "program": byid[row["id"]], "event": ev, "events": row["events"], "mentioned": row["mentioned"],
+            "scratch_int": row["scratch_int"], "scratch_float": row["scratch_float"]}
+
+    full_len = len(hist)
+    n_alloc = sum(1 for e in hist if e["ev"] == "alloc")
+    n_complex = sum(1 for e in hist if e["ev"] == "too_complex")
+    n_anti = sum(1 for e in hist if e["ev"] == "anti_scratch_error")
+    rounds = validate_history(chk, wd, hist, index, describe)
+    if not replay:
+        # subs with parameters and the register files of the real games (old ECL)
+        ehist, eindex = real_ecl_part(chk)
+
+        def describe_ecl(row, ev, why):
+            reg = ev.get("reg")
+            where = "param" if reg in param_regs(row["game"], row["sig"]) else "mentioned" if reg in row["mentioned"] else "other"
+            key = "ecl:th%s:%s:%s" % (row["game"].zfill(2), ev.get("ev"), where)
+            return key, "%s: %s in sub %s(%s) of a th%s file\n%s" % (why, json.dumps(ev), row["sub"], row["sig"], row["game"], row["text"]), {
+                "text": row["text"], "game": row["game"], "sub": row["sub"], "sig": row["sig"], "event": ev, "events": row["events"],
+                "mentioned": row["mentioned"]}
+
+        chk.set("ecl_events", len(ehist))
+        rounds += validate_history(chk, lib.workdir("c05_ecl"), ehist, eindex, describe_ecl)
     chk.set("traces_validated_against_impl", len(rows))
     chk.set("events", full_len)
     chk.set("alloc_events", n_alloc)
@@ -124,7 +174,117 @@ def run(chk, replay=None):
     chk.set("tlc_runs", rounds)
     for o in rows[:3]:
         chk.sample({"source": o["text"], "events": o["events"][:8], "mentioned": o["mentioned"]})
-    chk.assume("parameter registers of subs are exercised by the real-ECL part only when present (TestLanguage bodies have none)")
+    chk.assume("real ECL part: Mentioned is the set of raw registers the generator wrote into the sub's body; General and the calling convention are the documented register files of EoSD/PCB/IN (tables in checks/c05.py); instruction operands are not decoded there (events only)")
+
+
+# ---- real ECL part: subs with parameters, the register files of EoSD / PCB / IN --------------------------------
+# general-purpose registers per game (the language's register file; same table as the format module's
+# `general_use_regs`, so OnlyGeneral is a regression check here -- the independent facts are Mentioned (the
+# generator's record) and the events)
+ECL_GENERAL = {
+    "6": ([-10001, -10002, -10003, -10004, -10009, -10010, -10011, -10012], [-10005, -10006, -10007, -10008]),
+    "7": ([10000, 10001, 10002, 10003, 10012, 10013, 10014, 10015], [10004, 10005, 10006, 10007, 10008, 10009, 10010, 10011, 10072, 10074]),
+    "8": ([10000, 10001, 10002, 10003, 10004, 10005, 10006, 10007, 10036, 10037, 10038, 10039],
+          [10016, 10017, 10018, 10019, 10020, 10021, 10022, 10023, 10094, 10095]),
+}
+# where a sub's parameters live: EoSD passes (int, float) in I0 / F0 -- which are general-purpose registers --,
+# PCB and IN in dedicated PARAM registers (ints from A, floats 4 above)
+ECL_PARAM_BASE = {"6": (-10001, -10005), "7": (10029, 10033), "8": (10053, 10057)}
+
+
+def param_regs(game, sig):
+    bi, bf = ECL_PARAM_BASE[game]
+    out, ni, nf = [], 0, 0
+    for c in sig:
+        if c == "i":
+            out.append(bi + ni if game != "6" else bi); ni += 1
+        else:
+            out.append(bf + nf if game != "6" else bf); nf += 1
+    return out
+
+
+def regs_in(v, out):
+    if isinstance(v, dict):
+        if v.get("k") == "var" and __import__("re").match(r"r-?\d+$", str(v.get("id", ""))):
+            out.add(int(v["id"][1:]))
+        for x in v.values():
+            regs_in(x, out)
+    elif isinstance(v, list):
+        for x in v:
+            regs_in(x, out)
+
+
+def real_ecl_part(chk):
+    import random, re
+    from . import c01
+    quick = chk.tier == "quick"
+    per_game = 60 if quick else 600
+    rng = random.Random(chk.seed * 31 + 5)
+    sources, games = [], []
+    for key in ("ecl06", "ecl07", "ecl08"):
+        for i in range(per_game):
+            sources.append(c01.gen_source(rng, key, ["blocks", "mixed", "raw"][i % 3]))
+            games.append(c01.LANGS[key].game)
+    texts = c01.render_sources(sources, "c05ecl")
+    wd = lib.workdir("c05_ecl")
+    jobs = []
+    for i, (text, game) in enumerate(zip(texts, games)):
+        path = os.path.join(wd, "src_%05d.spec" % i)
+        with open(path, "w") as f:
+            f.write(text)
+        jobs.append({"idx": i, "tool": "ecl", "game": game, "spec": path, "all_events": True})
+    jpath = os.path.join(wd, "jobs.ndjson")
+    lib.write_ndjson(jpath, jobs)
+    p = lib.vh(["pipeline", jpath], timeout=3000)
+    rows = [json.loads(l) for l in p.stdout.splitlines()]
+    if len(rows) != len(jobs):
+        raise lib.ToolError("pipeline harness answered %d of %d jobs" % (len(rows), len(jobs)))
+    hist, index = [], []
+    for sf, game, text, row in zip(sources, games, texts, rows):
+        if row["rc"] == 101:
+            chk.report("panic:ecl:%s" % lib.norm_loc(row["stderr"])[:90], "compiling panics: %s\n%s" % (row["stderr"], text), {"text": text, "game": game})
+            continue
+        chk.add("ecl_files")
+        chk.add("ecl_files_rc_%d" % row["rc"])
+        # the generator's record per sub: name -> (signature, registers it wrote into the body)
+        subs = {}
+        for j, part in enumerate(sf.parts):
+            m = isinstance(part, str) and re.match(r"void (\w+)\((.*)\) \{", part)
+            if m and j + 1 < len(sf.parts) and not isinstance(sf.parts[j + 1], str):
+                ment = set()
+                regs_in(sf.parts[j + 1][1], ment)
+                sig = "".join("i" if q.strip().startswith("int") else "f" for q in m.group(2).split(",") if q.strip())
+                subs[m.group(1)] = (sig, ment)
+        cur = None
+        for ev in row["events"] + [{"ev": "pool", "sub": None, "last": True}]:
+            if ev["ev"] == "pool":
+                if cur is not None:
+                    hist.append({"ev": "end", "ok": row["rc"] == 0})
+                cur = None
+                name = ev.get("sub")
+                if name is None or ev.get("last"):
+                    continue
+                if name not in subs:
+                    raise lib.ToolError("pool event for an unknown sub %r" % name)
+                sig, ment = subs[name]
+                want_params = sorted(param_regs(game, sig))
+                if sorted(ev["params"]) != want_params:
+                    chk.report("params:th%s:%s" % (game.zfill(2), sig or "-"),
+                               "sub %s(%s) of a th%s file: the allocator reserves %s for the parameters, the calling convention gives %s\n%s"
+                               % (name, sig, game, sorted(ev["params"]), want_params, text), {"text": text, "game": game, "sub": name})
+                gi, gf = ECL_GENERAL[game]
+                cur = {"text": text, "sub": name, "game": game, "sig": sig, "mentioned": sorted(ment), "events": []}
+                index.append((len(hist) + 1, cur))
+                hist.append({"ev": "reset", "general_i": gi, "general_f": gf, "mentioned": sorted(ment), "params": want_params, "anti": False})
+                chk.add("ecl_subs")
+                if sig:
+                    chk.add("ecl_subs_with_params")
+            elif cur is not None and ev["ev"] in ("alloc", "free", "too_complex"):
+                hist.append(ev)
+                cur["events"].append(ev)
+                if ev["ev"] == "alloc":
+                    chk.add("ecl_alloc_events")
+    return hist, index
 
 
 def mention_kinds_of(prog):
